@@ -56,15 +56,22 @@ func builtinNumberToFixed(call FunctionCall) Value {
 	if call.This.IsNaN() {
 		return stringValue("NaN")
 	}
-	if value := call.This.float64(); math.Abs(value) >= 1e21 {
+	value := call.This.float64()
+	if math.Abs(value) >= 1e21 {
 		return stringValue(floatToString(value, 64))
 	}
-	return stringValue(strconv.FormatFloat(call.This.float64(), 'f', int(precision), 64))
+	if value == 0 {
+		value = 0 // -0 is not < 0: no sign (15.7.4.5 step 5)
+	}
+	return stringValue(strconv.FormatFloat(value, 'f', int(precision), 64))
 }
 
 func builtinNumberToExponential(call FunctionCall) Value {
 	if call.This.IsNaN() {
 		return stringValue("NaN")
+	}
+	if value := call.This.float64(); math.IsInf(value, 0) {
+		return stringValue(floatToString(value, 64)) // 15.7.4.6 step 6, before the range check
 	}
 	precision := float64(-1)
 	if value := call.Argument(0); value.IsDefined() {
@@ -83,6 +90,9 @@ func builtinNumberToPrecision(call FunctionCall) Value {
 	value := call.Argument(0)
 	if value.IsUndefined() {
 		return stringValue(call.This.string())
+	}
+	if this := call.This.float64(); math.IsInf(this, 0) {
+		return stringValue(floatToString(this, 64)) // 15.7.4.7 step 7, before the range check
 	}
 	precision := toIntegerFloat(value)
 	if 1 > precision || 21 < precision {
